@@ -707,6 +707,62 @@ def session_cases(ck, n):
                             'eol': 'crlf' if any('\r' in c['text'] for su in suites for c in su['cases']) else 'lf'})
 
 
+def cli_debug_sessions(ck, n):
+    """the real CLI with -d in a child process: with -d the output of the harness is captured by a
+    different loop (it is echoed while it arrives). More than 4 KiB of ReBenchLog output whose
+    criterion names consist of multi-byte characters, laid out so that such characters straddle the
+    4096-byte boundaries: every criterion must reach the data file exactly as printed."""
+    import drive
+    import drive_config
+    for idx in range(n):
+        wd = os.path.join(ck.scratch, 'c05dbg%d' % idx)
+        os.makedirs(wd)
+        word = ck.rng.choice(['m\u00e9moire', '\u0394heap', '\u00e9\u00e8\u00ea\u00eb', '\u20ac\u20ac\u20ac', 'gc\U0001F600'])
+        n_it = ck.rng.choice([150, 300])
+        best = None
+        for pad in range(0, 48, 3):
+            lines, want = ['x' * pad] if pad else [], []
+            for i in range(1, n_it + 1):
+                crit = '%s-%s%d' % (word, word, i)
+                lines.append('B: %s: %dkb' % (crit, i))
+                lines.append('B: iterations=1 runtime: %dms' % i)
+                want.append((i, crit, 'kb'))
+                want.append((i, 'total', 'ms'))
+            raw = ('\n'.join(lines) + '\n').encode('utf-8')
+            straddles = sum(1 for b in range(4096, len(raw), 4096) if (raw[b] & 0xC0) == 0x80)
+            if best is None or straddles > best[0]:
+                best = (straddles, raw, want)
+        straddles, raw, want = best
+        with open(os.path.join(wd, 'out.bin'), 'wb') as f:
+            f.write(raw)
+        with open(os.path.join(wd, 'vm.sh'), 'w') as f:
+            f.write('#!/bin/sh\n/bin/cat %s/out.bin\n' % wd)
+        os.chmod(os.path.join(wd, 'vm.sh'), 0o755)
+        cfg = {'default_data_file': 'd.data', 'runs': {'invocations': 1},
+               'benchmark_suites': {'S': {'gauge_adapter': 'RebenchLog', 'command': '%(benchmark)s', 'benchmarks': ['B']}},
+               'executors': {'E': {'path': wd, 'executable': 'vm.sh'}},
+               'experiments': {'X': {'suites': ['S'], 'executions': ['E']}}}
+        conf = drive.write_config(wd, cfg)
+        debug = idx % 2 == 0
+        r = drive_config.run_cli(wd, (['-d'] if debug else []) + [conf])
+        ck.impl_traces += 1
+        rows = drive.read_data_file(os.path.join(wd, 'd.data'))['rows']
+        got = [(int(row[1]), row[4], row[3]) for row in rows]
+        inp = {'kind': 'cli-debug', 'debug': debug, 'bytes': len(raw), 'criterion_word': word, 'iterations': n_it,
+               'multi_byte_characters_on_4096_boundaries': straddles}
+        ck.count('cli-session:%s' % ('-d' if debug else 'plain'))
+        ck.count('cli-session:characters-straddling-4KiB-boundaries', straddles)
+        ck.case(nontrivial_key=('cli-debug', debug, word, n_it))
+        if r.crash or r.status() != 'ok':
+            ck.oracle_fail('session_rows', inp, {'problem': 'session ended %s' % r.status(), 'stderr': r.stderr[-400:]},
+                           {'adapter': 'ReBenchLog', 'clause': 'session_rows', 'session': 'cli-d' if debug else 'cli'})
+        elif got != want:
+            bad = [(g, w) for g, w in zip(got, want) if g != w][:3]
+            ck.oracle_fail('session_rows', inp, {'problem': 'rows differ from what the harness printed', 'rows': len(got),
+                                                 'expected_rows': len(want), 'first_differences': bad},
+                           {'adapter': 'ReBenchLog', 'clause': 'session_rows', 'session': 'cli-d' if debug else 'cli'})
+
+
 # -------------------------------------------------------------------- corpus
 def corpus_cases():
     d = os.path.join(lib.VERIF, 'harness', 'corpus', 'C05')
@@ -770,12 +826,15 @@ def run(ck):
     check_bytes(ck, 600 if quick else 20000)
     check_recognisers(ck, 2000 if quick else 100000)
     session_cases(ck, 24 if quick else 300)
+    cli_debug_sessions(ck, 4 if quick else 20)
 
 
 def replay(ck, data):
     da.check_alphabet()
     inp = data['input']
-    if inp.get('kind') == 'bytes':
+    if inp.get('kind') == 'cli-debug':
+        cli_debug_sessions(ck, 4)
+    elif inp.get('kind') == 'bytes':
         ck.notes.append('byte-level replays are re-generated from the seed: VERIF_SEED=%s' % data.get('seed'))
         check_bytes(ck, 600)
     elif inp.get('kind') == 'roundtrip':
